@@ -6,10 +6,10 @@ EXTENDS Ring, Json
 Arr(f) == [i \in 1 .. Cap |-> f[i - 1]]
 St  == [rpos |-> rpos, wpos |-> wpos, used |-> used, produced |-> produced,
         consumed |-> consumed, tags |-> Arr(tags), mem |-> Arr(mem),
-        wwin |-> wwin, rwin |-> rwin, wstale |-> wstale, poisoned |-> poisoned]
+        wwin |-> wwin, rwin |-> rwin, wstale |-> wstale, rstale |-> rstale, poisoned |-> poisoned]
 StP == [rpos |-> rpos', wpos |-> wpos', used |-> used', produced |-> produced',
         consumed |-> consumed', tags |-> Arr(tags'), mem |-> Arr(mem'),
-        wwin |-> wwin', rwin |-> rwin', wstale |-> wstale', poisoned |-> poisoned']
+        wwin |-> wwin', rwin |-> rwin', wstale |-> wstale', rstale |-> rstale', poisoned |-> poisoned']
 Edge(a) == PrintT(<<"EDGE", ToJson([from |-> St, act |-> a, to |-> StP])>>)
 
 NextE ==
@@ -26,6 +26,10 @@ NextE ==
   \/ AcqW2 /\ Edge([op |-> "acqw2"])
   \/ DropStale /\ Edge([op |-> "dropstale"])
   \/ \E n \in 1 .. Cap : StaleCommitRefused(n) /\ Edge([op |-> "stale_commit_refused", n |-> n])
+  \/ AcqR2 /\ Edge([op |-> "acqr2"])
+  \/ DropStaleR /\ Edge([op |-> "dropstale_r"])
+  \/ \E m \in 0 .. Cap : ConsumeStale(m) /\ Edge([op |-> "consume_stale", m |-> m])
+  \/ \E m \in 1 .. Cap : StaleConsumeRefused(m) /\ Edge([op |-> "stale_consume_refused", m |-> m])
 
 SpecE == Init /\ [][NextE]_vars
 =============================================================================
